@@ -17,7 +17,7 @@ pub fn scenario(seed: u64, campaign: &'static str, prop: &'static str, idx: u64)
     let targets = ["/file.txt", "/page.html", "/page", "/d/", "/d", "/big.bin", "/", "/missing.txt"];
     let faults: Vec<&str> = match campaign {
         "segmented" => vec!["seg"],
-        "faulted" => swarm_subset(&mut rng, &["seg", "eof", "eof_mid", "read_err", "short_write", "write_zero", "write_err", "flush_err", "client_gone", "handler_err"]),
+        "faulted" => swarm_subset(&mut rng, &["seg", "eof", "eof_mid", "read_err", "short_write", "write_zero", "write_err", "flush_err", "client_gone", "handler_err", "stall"]),
         _ => vec![],
     };
     let overlapped = rng.chance(1, 2);
